@@ -11,6 +11,11 @@ from .core import HarnessError
 REQUIRED = ('atype', 'resid', 'resname', 'atomname', 'charge_group')
 
 
+class ParseProblem(HarnessError):
+    """The text is not a well-formed ITP.  For text produced by the writer under test this is a finding about the
+    writer (callers turn it into a violation); for our own fixtures it stays a harness error."""
+
+
 def snapshot(molecule, moltype=None):
     """Plain-data snapshot of a vermouth Molecule (taken at write time)."""
     nodes = []
@@ -49,31 +54,31 @@ def parse_itp(text):
             word = tokens[0]
             if word in ('#ifdef', '#ifndef'):
                 if guard is not None:
-                    raise HarnessError('nested conditional at line %d: %r' % (lineno, raw))
+                    raise ParseProblem('nested conditional at line %d: %r' % (lineno, raw))
                 guard = (tokens[1], word == '#ifdef')
             elif word == '#endif':
                 if guard is None:
-                    raise HarnessError('#endif without #if at line %d' % lineno)
+                    raise ParseProblem('#endif without #if at line %d' % lineno)
                 guard = None
             elif word == '#define':
                 out['defines'][tokens[1]] = (' '.join(tokens[2:]), guard)
             elif word == '#include':
                 out.setdefault('includes', []).append(tokens[1].strip('"'))
             else:
-                raise HarnessError('unknown directive at line %d: %r' % (lineno, raw))
+                raise ParseProblem('unknown directive at line %d: %r' % (lineno, raw))
             continue
         if line.startswith('['):
             if not line.endswith(']'):
-                raise HarnessError('bad section header at line %d: %r' % (lineno, raw))
+                raise ParseProblem('bad section header at line %d: %r' % (lineno, raw))
             section = line[1:-1].strip()
             out['sections'].append(section)
             continue
         tokens = line.split()
         if section is None:
-            raise HarnessError('content before any section at line %d: %r' % (lineno, raw))
+            raise ParseProblem('content before any section at line %d: %r' % (lineno, raw))
         if section == 'moleculetype':
             if out['moltype'] is not None:
-                raise HarnessError('second moleculetype at line %d' % lineno)
+                raise ParseProblem('second moleculetype at line %d' % lineno)
             out['moltype'] = (tokens[0], tokens[1])
         elif section == 'atoms':
             out['atoms'].append(tokens)
@@ -81,7 +86,7 @@ def parse_itp(text):
             out['records'].append((section, guard, tokens, comment))
     _ = pending_define_guard
     if guard is not None:
-        raise HarnessError('unterminated conditional')
+        raise ParseProblem('unterminated conditional')
     return out
 
 
